@@ -80,8 +80,9 @@ class NInst(Inst):
 
 HOF_PREFIX = ("core::option::Option::", "core::result::Result::", "core::iter::", "<core::iter::", "core::ops::function::",
               "<core::slice::iter::", "core::slice::", "<alloc::collections::btree::map::", "<alloc::vec::", "<core::option::", "<core::ops::range::",
-              "<core::array::", "core::array::", "<std::collections::hash::map::", "<&mut ", "<core::result::", "core::sync::atomic::Atomic::<", "core::ops::try_trait::", "<core::ops::try_trait::")
+              "<core::array::", "core::array::", "<std::collections::hash::map::", "<&mut ", "<core::result::", "core::sync::atomic::Atomic::<", "core::ops::try_trait::", "<core::ops::try_trait::", "core::bool::")
 WS_CLOSURE_RE = __import__("re").compile(r"\{closure@<?signal_hook")
+FN_ITEM_RE = __import__("re").compile(r"fn\(.*\)( -> [^{]*)? \{")
 import re as _re
 # std adapters whose only job is to forward a value between Result/Option shapes (`?` desugaring, identity conversions)
 TRANSPARENT_RE = _re.compile(r"^<core::(result::Result|option::Option|ops::control_flow::ControlFlow)<.*> as core::ops::try_trait::(Try|FromResidual<.*>)>::(branch|from_residual|from_output)$"
@@ -96,6 +97,8 @@ def default_inlinable(F, callee, hof=False):
         return True
     if hof and TRANSPARENT_RE.match(callee.name):
         return True
+    if hof and callee.name.startswith(("core::option::Option::", "core::result::Result::")) and FN_ITEM_RE.search(callee.name):
+        return True               # `res.map(Some)`, `opt.map(Wrapper::new)`: a combinator instantiated with a function item
     if hof and WS_CLOSURE_RE.search(callee.name) and callee.name.startswith(HOF_PREFIX):
         # a std combinator instantiated with a workspace closure: `opt.map(|x| ..)`, `iter.for_each(|a| ..)`; its body is ordinary MIR
         return True
@@ -131,8 +134,7 @@ def norm(F, inst, keep=lambda c: False, depth=MAX_DEPTH, inlinable=None, drops=F
         cb = cn.body
         lo = len(locals_); bo = len(blocks)
         locals_.extend(cb["locals"])
-        cnames = cb.get("names") or []
-        names.extend(cnames if len(cnames) == len(cb["locals"]) else [None] * len(cb["locals"]))
+        names.extend([[x[0], _remap(x[1], lo)] for x in (cb.get("names") or []) if isinstance(x, list) and len(x) == 2 and isinstance(x[1], dict)])
         argc = cb["argc"]
         sp = t.get("sp", "")
         # ---- argument binding
@@ -159,7 +161,7 @@ def norm(F, inst, keep=lambda c: False, depth=MAX_DEPTH, inlinable=None, drops=F
             else:
                 bi += 1
                 # cannot bind: leave the call alone (undo the local growth)
-                del locals_[lo:]; del names[lo:]
+                del locals_[lo:]
                 continue
             ret_to = t.get("ret"); unw_to = t.get("unw"); dest = t.get("dest")
         # ---- splice callee blocks
@@ -248,6 +250,53 @@ def simplify(F, n, rounds=6):
     the inlined call site) becomes a goto; blocks that become unreachable are emptied (indices stay stable). No code is run."""
     from .flow import Flow
     body = n.body
+    # locals whose storage can change behind the value analysis' back: anything mutably borrowed (the analysis follows assignments, not writes
+    # through pointers). A branch that reads such a local — or reads through any pointer — is never folded.
+    mutb = set()
+    for bl in body["blocks"]:
+        for st in bl["s"]:
+            if st["k"] == "assign" and st["r"]["k"] in ("ref", "rawptr") and st["r"].get("m") not in ("shared", "Const", "const") \
+                    and not any(p["k"] == "deref" for p in st["r"]["p"]["p"]):
+                mutb.add(st["r"]["p"]["l"])
+
+    def reads_memory(fl, local, at, depth=0, seen=None):
+        """does the value of `local` at `at` depend on a read through a pointer or of a mutably borrowed local?"""
+        seen = seen if seen is not None else set()
+        if depth > 10 or local in mutb:
+            return True
+
+        def place_bad(pl, at2):
+            if any(p["k"] == "deref" for p in pl["p"]):
+                return True
+            return reads_memory(fl, pl["l"], at2, depth + 1, seen)
+
+        def op_bad(o, at2):
+            return o.get("k") in ("copy", "move") and place_bad(o["p"], at2)
+        for site in fl.reaching(local, at):
+            if site[0] == "entry" or (local, site) in seen:
+                continue
+            seen.add((local, site))
+            sb, si = site
+            bl_ = body["blocks"][sb]
+            if si >= len(bl_["s"]):
+                continue              # defined by a call: an opaque value, never folded anyway
+            st = bl_["s"][si]
+            if st["k"] != "assign":
+                return True
+            r = st["r"]; k = r["k"]
+            if k == "use" and op_bad(r["o"], (sb, si)):
+                return True
+            if k in ("discr", "ref", "rawptr") and place_bad(r["p"], (sb, si)):
+                return True
+            if k == "cast" and op_bad(r["o"], (sb, si)):
+                return True
+            if k == "binop" and (op_bad(r["a"], (sb, si)) or op_bad(r["b"], (sb, si))):
+                return True
+            if k == "unop" and op_bad(r["a"], (sb, si)):
+                return True
+            if k == "aggregate" and any(op_bad(o, (sb, si)) for o in r["ops"]):
+                return True
+        return False
     for _ in range(rounds):
         fl = Flow(n)
         changed = False
@@ -259,8 +308,14 @@ def simplify(F, n, rounds=6):
                 fl._compute()
             if fl._rd_in[b] is None:
                 continue
+            d_ = t["d"]
+            if d_.get("k") in ("copy", "move"):
+                if any(p["k"] == "deref" for p in d_["p"]["p"]) or reads_memory(fl, d_["p"]["l"], (b, len(bl["s"]))):
+                    continue
             ex = fl.term_operand(b, t["d"])
             vals = {_const_discr(F, e) for e in ex}
+            if t.get("dty") == "bool":
+                vals = {(v & 1) if isinstance(v, int) else v for v in vals}        # `!false` folds to -1 as an integer: it is `true`
             if len(vals) != 1 or None in vals:
                 continue
             v = vals.pop()
@@ -375,8 +430,22 @@ def thread_jumps(F, n, rounds=12):
     addr_taken = set()
     for bl in blocks:
         for s in bl["s"]:
-            if s["k"] == "assign" and s["r"]["k"] in ("ref", "rawptr") and not s["r"]["p"]["p"]:
+            if s["k"] == "assign" and s["r"]["k"] in ("ref", "rawptr") and not any(p["k"] == "deref" for p in s["r"]["p"]["p"]) \
+                    and s["r"].get("m") not in ("shared", "Const", "const"):
                 addr_taken.add(s["r"]["p"]["l"])
+    # drop flags: unnamed bool temporaries that are only ever assigned the constants true / false
+    named = {x[1]["l"] for x in (body.get("names") or []) if isinstance(x, list) and len(x) == 2 and isinstance(x[1], dict)}
+    assigned = {}
+    for bl in blocks:
+        for s in bl["s"]:
+            if s["k"] == "assign" and not s["l"]["p"]:
+                r = s["r"]
+                isc = r["k"] == "use" and r["o"]["k"] == "const" and r["o"]["c"].get("ty") == "bool"
+                assigned.setdefault(s["l"]["l"], []).append(isc)
+        t = bl["t"]
+        if t["k"] == "call" and t.get("dest") and not t["dest"]["p"]:
+            assigned.setdefault(t["dest"]["l"], []).append(False)
+    drop_flags = {l for l, v in assigned.items() if all(v) and body["locals"][l] == "bool" and l not in named and l > body["argc"]}
     for _ in range(rounds):
         fl = Flow(n)
         fl._compute()
@@ -419,8 +488,11 @@ def thread_jumps(F, n, rounds=12):
                         target = r["o"]["p"]["l"]
                     else:
                         ok = False
-            if not ok or target in addr_taken or not via_discr:
-                continue      # only enum discriminants are threaded (plain bool flags keep their join: rules reason about them as values)
+            if not via_discr and bl.get("cleanup"):
+                continue      # drop flags on unwind paths stay as they are (predecessors over unwind edges are not tracked here)
+            if not ok or target in addr_taken or not (via_discr or target in drop_flags):
+                continue      # enum discriminants and compiler-made drop flags are threaded (user-level bool flags keep their join: rules
+                              # reason about them as values)
             for p in list(preds[head]):
                 if blocks[p].get("dead") or fl._rd_in[p] is None or p in chain:
                     continue
